@@ -21,6 +21,7 @@ pub struct Shared {
     pub fail_at: Option<usize>,
 }
 type Sh = Rc<RefCell<Shared>>;
+thread_local! { static STREAM_LOG: RefCell<Vec<String>> = RefCell::new(vec![]); }
 
 fn chunk(s: &str) -> (String, ContentType) {
     let body = String::from_utf8(unhex(&s[1..])).unwrap();
@@ -94,6 +95,25 @@ fn element_handler(sh: Sh, idx: usize, ops: String) -> impl FnMut(&mut Element<'
                         apply_et_ops(t, &inner);
                         Ok(())
                     })).is_ok()
+                }
+                "ss" => {
+                    // streaming content: ss:<method b|a|p|e|i|r><type h|t>:<u|s><hex>;...   (u = write_utf8_chunk, s = write_str)
+                    let (m, ct) = (arg.as_bytes()[0], if arg.as_bytes()[1] == b'h' { ContentType::Html } else { ContentType::Text });
+                    let frags: Vec<(bool, Vec<u8>)> = arg[3..].split(';').filter(|f| !f.is_empty()).map(|f| (f.starts_with('u'), unhex(&f[1..]))).collect();
+                    let h = lol_html::streaming!(move |sink: &mut lol_html::html_content::StreamingHandlerSink<'_>| {
+                        let mut res = String::new();
+                        let mut out = Ok(());
+                        for (utf8, f) in &frags {
+                            if *utf8 {
+                                match sink.write_utf8_chunk(f, ct) { Ok(()) => res.push('k'), Err(e) => { res.push('e'); out = Err(e.into()); break; } }
+                            } else { sink.write_str(std::str::from_utf8(f).unwrap(), ct); res.push('k'); }
+                        }
+                        STREAM_LOG.with(|l| l.borrow_mut().push(format!("H ss {origin} r={res} a=- | -")));
+                        out
+                    });
+                    match m { b'b' => el.streaming_before(h), b'a' => el.streaming_after(h), b'p' => el.streaming_prepend(h), b'e' => el.streaming_append(h),
+                              b'i' => el.streaming_set_inner_content(h), _ => el.streaming_replace(h) }
+                    true
                 }
                 "sb" => { let (c, ct) = chunk(arg); el.start_tag().before(&c, ct); true }
                 "sf" => { let (c, ct) = chunk(arg); el.start_tag().after(&c, ct); true }
@@ -267,6 +287,7 @@ pub fn run_case(line: &str) {
             }
         };
         for l in sh.borrow_mut().log.drain(..) { outln!("{l}"); }
+        for l in STREAM_LOG.with(|l| l.borrow_mut().drain(..).collect::<Vec<_>>()) { outln!("{l}"); }
         outln!("R {k} {res}");
         if matches!(op, Op::Write(_)) && (res == "ok" || res.starts_with("err")) { outln!("U {k} {}", limiter.verif_usage()); }
     }
